@@ -3,13 +3,28 @@ package asn1struct
 import (
 	"encoding/asn1"
 	"encoding/hex"
+	"errors"
 	"math/big"
 	"time"
 
 	"github.com/edutko/decipher/internal/names"
 )
 
+// maxDepth is the deepest nesting of elements ParseRaw follows. Real-world DER nests a
+// few dozen levels at most; without a limit a crafted file of a few megabytes of nested
+// SEQUENCE headers exhausts the goroutine stack, which cannot be recovered from.
+const maxDepth = 1000
+
+var ErrTooDeep = errors.New("asn1struct: elements nested too deeply")
+
 func ParseRaw(data []byte) ([]Raw, error) {
+	return parseRaw(data, 1)
+}
+
+func parseRaw(data []byte, depth int) ([]Raw, error) {
+	if depth > maxDepth {
+		return nil, ErrTooDeep
+	}
 	var items []Raw
 	var err error
 	rest := data
@@ -23,7 +38,7 @@ func ParseRaw(data []byte) ([]Raw, error) {
 		// An empty constructed value (e.g. an empty SEQUENCE, 30 00) has no children;
 		// asn1.Unmarshal would reject the empty content as truncated.
 		if rawItem.IsCompound && len(rawItem.Bytes) > 0 {
-			children, err := ParseRaw(rawItem.Bytes)
+			children, err := parseRaw(rawItem.Bytes, depth+1)
 			if err != nil {
 				return nil, err
 			}
